@@ -8,6 +8,7 @@ import (
 
 	"verif/engines/codec"
 	"verif/engines/route"
+	"verif/engines/stress"
 	"verif/internal/mon"
 )
 
@@ -21,6 +22,7 @@ type entry struct {
 var registry = map[string]entry{
 	"C01": {"route", "exploration", route.RunC01, route.Replay},
 	"C02": {"route", "exploration", route.RunC02, route.Replay},
+	"C12": {"stress", "exploration", stress.RunC12, nil},
 	"C16": {"route", "exploration", route.RunC16, route.ReplayC16},
 	"C17": {"codec", "exploration", codec.Run, codec.Replay},
 	"C19": {"route", "exploration", route.RunC19, route.ReplayC19},
@@ -29,13 +31,13 @@ var registry = map[string]entry{
 func main() {
 	if len(os.Args) < 2 {
 		fmt.Fprintln(os.Stderr, "usage: vcheck <ID> [quick|thorough] [--replay file]")
-		os.Exit(2)
+		os.Exit(4)
 	}
 	id := os.Args[1]
 	e, ok := registry[id]
 	if !ok {
 		fmt.Fprintf(os.Stderr, "unknown property %s\n", id)
-		os.Exit(2)
+		os.Exit(4)
 	}
 	tier := ""
 	replay := ""
@@ -56,14 +58,14 @@ func main() {
 		b, err := os.ReadFile(replay)
 		if err != nil {
 			fmt.Fprintln(os.Stderr, err)
-			os.Exit(2)
+			os.Exit(4)
 		}
 		var doc struct {
 			Case json.RawMessage `json:"case"`
 		}
 		if err := json.Unmarshal(b, &doc); err != nil || e.replay == nil {
 			fmt.Fprintln(os.Stderr, "replay not supported or bad file:", err)
-			os.Exit(2)
+			os.Exit(4)
 		}
 		r.Floor = 0
 		e.replay(r, doc.Case)
